@@ -176,6 +176,12 @@ struct SimState {
 };
 static SimState G;
 static inline size_t max_anon() { return G.w.max_anon > 0 ? (size_t)G.w.max_anon : MAX_ANON_DEFAULT; }
+// address space reserved behind a new mapping of `len` bytes for growth in place: up to the limit by default; in a world with a
+// raised limit in proportion to the mapping (a mapping that outgrows its span is moved, as a kernel would)
+static inline size_t anon_span(size_t len) {
+  if (G.w.max_anon <= 0) return MAX_ANON_DEFAULT + PAGE;
+  return std::min<size_t>(max_anon(), 2 * len + (256u << 10)) + PAGE;
+}
 static const int FD_BASE = 1000;
 // descriptor numbers: the k-th descriptor of a run is FD_BASE+k; with a world in which descriptor 0 is free
 // (the caller closed stdin) the first one is 0, as open(2) hands out the lowest free number
@@ -912,7 +918,7 @@ extern "C" void *__wrap_mmap(void *addr, size_t len, int prot, int flags, int fd
       errno = ENOMEM;
       return MAP_FAILED;
     }
-    Island *is = island_new(IS_ANON, len, prot, max_anon() + PAGE);
+    Island *is = island_new(IS_ANON, len, prot, anon_span(len));
     if (!is) {
       errno = ENOMEM;
       return MAP_FAILED;
@@ -1033,7 +1039,7 @@ extern "C" void *__wrap_mremap(void *old, size_t old_len, size_t new_len, int fl
   }
   int old_id = is->id;
   int prot = is->prot;
-  Island *ni = island_new(IS_ANON, new_len, prot | PROT_WRITE, max_anon() + PAGE);
+  Island *ni = island_new(IS_ANON, new_len, prot | PROT_WRITE, anon_span(new_len));
   if (!ni) {
     errno = ENOMEM;
     return MAP_FAILED;
